@@ -496,3 +496,15 @@ pub fn ms_counting<'a>(key: [u64; 2], mac: MacAddr) -> Masscanned<'a> {
 pub fn utc_now_stub() -> chrono::DateTime<chrono::Utc> {
     chrono::DateTime::<chrono::Utc>::from_timestamp(0, 0).unwrap()
 }
+
+/// Two-flow variant of the cookie contract stub: an arbitrary function of the destination
+/// port with two values (flow A: dport == COOKIE2.0 -> COOKIE2.1, every other flow -> COOKIE2.2)
+pub static mut COOKIE2: (u16, u32, u32) = (0, 0, 0);
+pub fn generate_stub2(ci: &ClientInfo, _key: &[u64; 2]) -> Result<u32, std::io::Error> {
+    let c = unsafe { COOKIE2 };
+    if ci.port.dst == Some(c.0) {
+        Ok(c.1)
+    } else {
+        Ok(c.2)
+    }
+}
